@@ -109,7 +109,9 @@ static int deliver_headers(zckDL *dl, struct resp *rp) {
         size_t n = nl ? (size_t)(nl - (rp->hdr + pos)) + 1 : rp->hdr_len - pos;
         char *copy = malloc(n);
         memcpy(copy, rp->hdr + pos, n);
+        chn.in_cb = 0;
         size_t r = zck_header_cb(copy, 1, n, dl);
+        chain_account(copy, n, r);
         free(copy);
         if(r != n) return 0;
         pos += n;
@@ -214,7 +216,7 @@ static void do_update(char **t, int nt) {
     int rc = -1, rounds = 0;
     const char *stage = "init";
     if(!zck_init_adv_read(tgt, tf)) goto out;
-    zckDL *dl = zck_dl_init(tgt);
+    zckDL *dl = zh_dl_init(tgt);
     if(!dl) goto out;
     dls[15] = dl;
     /* --- header, as dl_header(): minimum download, lead, rest of header --- */
@@ -360,7 +362,7 @@ static void do_sweep(char **t, int nt) {
         if(!zck_init_read(z, fd)) { zh_log("{\"i\":%d,\"op\":\"sweep\",\"rc\":-2,\"err\":\"open\"}", opi); zck_free(&z); break; }
         zck_find_valid_chunks(z);
         zck_reset_failed_chunks(z);
-        dl = zck_dl_init(z);
+        dl = zh_dl_init(z);
         range = zck_get_missing_range(z, limit);
         if(!dl || !range || !zck_dl_set_range(dl, range)) { zh_log("{\"i\":%d,\"op\":\"sweep\",\"rc\":-2,\"err\":\"range\"}", opi); break; }
         if(!have_resp) {
@@ -450,7 +452,7 @@ static void do_sweep(char **t, int nt) {
     for(int k = 0; k < nouts; k++)
         zh_log("{\"i\":%d,\"ev\":\"outcome\",\"ok\":%d,\"img\":\"%016llx\",\"flags\":[%s],\"oob\":%ld,\"count\":%ld,\"first\":\"%s\",\"mp_state\":%d}", opi,
                outs[k].ok, (unsigned long long)outs[k].img, outs[k].flags, outs[k].oob, outs[k].count, outs[k].first, outs[k].mp_state);
-    zh_log("{\"i\":%d,\"op\":\"sweep\",\"rc\":1,\"iterations\":%ld,\"distinct_outcomes\":%d,\"resp_len\":%zu}", opi, iters, nouts, have_resp ? rp.body_len : 0);
+    zh_log("{\"i\":%d,\"op\":\"sweep\",\"rc\":1,\"iterations\":%ld,\"distinct_outcomes\":%d,\"resp_len\":%zu,\"chain\":%d,\"chain_calls\":%ld,\"chain_mismatched\":%ld}", opi, iters, nouts, have_resp ? rp.body_len : 0, g_chain, chn.calls, chn.mismatched);
     if(have_resp) { free(rp.hdr); free(rp.body); }
     free(rstr0);
     close(fd);
